@@ -329,6 +329,11 @@ def translate_function_call():
                        'not_yet_check_kwargs': '{k: v for k, v in self._kwargs.items() if k not in self._already_checked_kwargs}'}.items():
         if not same(prop_return(cls, name, 'FunctionCall'), text):
             bad(f'FunctionCall.{name} is no longer `return {text}`')
+    # the checker FunctionCall is linked with: the tables of Gen/CheckerTables.v are regenerated from that very module
+    links = [n for n in tree.body if isinstance(n, ast.ImportFrom) and any((a.asname or a.name) == 'assert_value_matches_type' for a in n.names)]
+    if len(links) != 1 or links[0].module != 'pedantic.type_checking_logic.check_types' or links[0].level != 0 \
+            or any(a.name != 'assert_value_matches_type' for a in links[0].names if (a.asname or a.name) == 'assert_value_matches_type'):
+        bad('FunctionCall: assert_value_matches_type is no longer imported from pedantic.type_checking_logic.check_types')
     locks = {f'FunctionCall.{n}': lock(find_in(cls, n, UNIT)) for n in
              ('__init__', 'type_vars', 'clazz', '_check_type_param', '_check_types_args', '_check_types_kwargs',
               '_check_types_return', '_assert_param_has_type_annotation')}
@@ -428,7 +433,7 @@ def translate():
     max_ped, max_other, cmp_, satoms, sfrom = aws
     locks = {}
     locks.update(locks_df); locks.update(locks_fc); locks.update(locks_gw)
-    out = header('t_pedantic.py', ['From PV Require Import Base.Exn Base.Values Base.Ann Model.PedanticCfg.'])
+    out = header('t_pedantic.py', ['From PV Require Import Base.Exn Base.Values Base.Ann Model.PedanticCfg.', 'From PV Require Gen.CheckerTables.'])
     for k, v in (('decorated_function', prov_df), ('function_call', prov_fc), ('fn_deco_pedantic', prov_pd),
                  ('fn_deco_require_kwargs', prov_rk), ('generator_wrapper', prov_gw)):
         out += f'Definition src_{k} : string := {coq_string(v)}.\n'
@@ -442,7 +447,7 @@ def translate():
     out += f'  pc_drop_args_when := {coq_list(drop)};\n  pc_async_drop_args_when := {coq_list(adrop)};\n'
     out += f'  pc_sync_steps := {coq_list(steps)};\n  pc_async_steps := {coq_list(asteps)};\n'
     out += f'  pc_wrapper := {coq_list(w)};\n  pc_async_wrapper := {coq_list(aw)};\n  pc_rk_wrapper := {coq_list(rw)};\n'
-    out += f'  pc_gen_bases := {coq_list(bases)} |}}.\n'
+    out += f'  pc_gen_bases := {coq_list(bases)};\n  pc_tables := PV.Gen.CheckerTables.checker_cfg |}}.\n'
     out += 'Definition locks : list (string * string) := [\n  ' + ';\n  '.join(
         f'({coq_string(k)}, {coq_string(v)})' for k, v in sorted(locks.items())) + '\n].\n'
     return {UNIT: out}
